@@ -18,7 +18,7 @@ class C06(Spec):
     rule_text = ("per covered rule (MD009, MD010, MD012, MD013, MD047) enabled alone: the document cells AND the rule's configuration (br_spaces 0..6, strict Bool; maximum 0..6; line_length any Int >= 1 applied to all three limits, strict Bool) are z3 variables; "
                  "assertion: set of reported lines == lines computed by the documented condition (engine/oracles/rrule.py) on the source and the reference parser's block map; paths on which pymarkdown's HTML differs from the reference are skipped (C03 precondition); "
                  "distinct = distinct (rule, reported line sets)")
-    assumptions = ["cells range over the C03 domain (U+0009, U+000A, U+0020-U+007E, U+00E9, U+03B1, U+1F600)", "MD012 is compared only on documents without containers and HTML blocks; MD047 only on non-empty documents; MD013 'stern' mode is not covered"]
+    assumptions = ["cells range over the C03 domain (U+0009, U+000A, U+0020-U+007E, U+00E9, U+03B1, U+4E2D)", "MD012 is compared only on documents without containers and HTML blocks; MD047 only on non-empty documents; MD013 'stern' mode is not covered"]
     outside = ["rules whose documentation is not a crisp text-level condition, and the crisp rules not yet given an oracle (MD001, MD003, MD004, MD018, MD019, MD022-MD026, MD031, MD032, MD035, MD040-MD042, MD045, MD046, MD048)",
                "documents beyond the stated skeletons / cells"]
 
